@@ -1078,6 +1078,10 @@ func (x *Exec) inferredFieldFrame(cfi *FuncInfo, call *ast.CallExpr, oldV, newV 
 	if !ok {
 		return
 	}
+	// a callee receives the pointer by value: it cannot make the caller's pointer nil or non-nil
+	pn := "isnilptr_" + sanitize(string(oldV.Sort))
+	x.W.DeclareFun(pn, []Sort{oldV.Sort}, SBool)
+	x.W.AddFact(env.pc, Eq(T("("+pn+" "+newV.S+")", SBool), T("("+pn+" "+oldV.S+")", SBool)))
 	named, ok := pt.Elem().(*types.Named)
 	if !ok {
 		return
